@@ -208,6 +208,11 @@ pub assume_specification<'a> [<&'a str as PartialEq<String>>::eq] (a: &&'a str, 
 // ---- what process_frame calls (ASSUMED contracts): the nu engine, value conversion, the CAS, the output buffer ----
 pub struct Span { pub _p: () }
 pub enum Value { Nothing { internal_span: Span }, Other { internal_span: Span } }     // nu_protocol::Value: only `Nothing` matters here
+pub assume_specification<T, E> [Result::<T, E>::unwrap_or] (r: Result<T, E>, d: T) -> (v: T)
+    ensures v == (match r { Ok(x) => x, Err(_) => d });
+pub mod nu_protocol { pub use super::Span; pub use super::Value; }
+impl Span { #[verifier::external_body] pub fn unknown() -> (r: Span) { unimplemented!() } }
+impl Value { #[verifier::external_body] pub fn nothing(s: Span) -> (r: Value) ensures r is Nothing { unimplemented!() } }
 #[verifier::external_body] pub struct OutGuard { _p: () }
 #[verifier::external_body] pub struct OutLock { _p: () }
 #[verifier::external_body] pub struct DrainIter { _p: () }
